@@ -50,6 +50,7 @@ def check(ctx: Ctx) -> None:
     ctx.rule('C04.R7', 'sibling evaluators agree on Expression, Constant, BoolOp, BinOp, UnaryOp, IfExp and on the six ordering/equality arms of Compare', floor=8)
     ctx.rule('C04.R8', 'reference tables are a subset of the implementation: documented calls exist, documented examples parse under the whitelist and have evaluators', floor=30)
     ctx.rule('C04.R9', 'operator tables agree: each isinstance(op, ast.X) arm applies the Python operator X', floor=20)
+    ctx.rule('C04.R11', 'comprehension variables shadow and restore like Python: the binding that was in scope before the loop is saved and put back', floor=2)
     ctx.rule('C04.R10', 'documented text functions reach the library primitive their reference row names', floor=10)
     r1_identifiers(ctx)
     r2_casefold(ctx)
@@ -61,6 +62,7 @@ def check(ctx: Ctx) -> None:
     r8_reference(ctx)
     r9_operators(ctx)
     r10_functions(ctx)
+    r11_scoping(ctx)
 
 
 def _evals(ctx):
@@ -717,3 +719,49 @@ def r10_functions(ctx: Ctx) -> None:
         if m is not None:
             rets = [src(r.value) for r in ast.walk(m.node) if isinstance(r, ast.Return) and r.value is not None]
             ctx.check(want in rets and 'text' in rets, 'C04.R10', m, f'fn:{nm}:slice', f'{nm} returns {want} or the text unchanged', f'{nm} returns {rets}')
+
+
+# --------------------------------------------------------------------------- R11
+def r11_scoping(ctx: Ctx) -> None:
+    proj = ctx.proj
+    te, _ = _evals(ctx)
+    n = 0
+    for m in te.methods.values():
+        fl = get_flow(proj, m)
+        for lp in [x for x in all_nodes(m.node) if isinstance(x, ast.For) and isinstance(x.target, ast.Name)]:
+            item = lp.target.id
+            stores = [s for s in lp.body if isinstance(s, ast.Assign) and isinstance(s.targets[0], ast.Subscript) and src(s.targets[0].value) == 'self._scope'
+                      and isinstance(s.value, ast.Name) and s.value.id == item]
+            if not stores:
+                continue
+            n += 1
+            key = src(stores[0].targets[0].slice)
+            # (a) the previous binding is saved before the loop variable is bound
+            saves = [s for s in ast.walk(m.node) if isinstance(s, ast.Assign) and isinstance(s.targets[0], ast.Name) and src(s.value).replace(' ', '') in
+                     (f'self._scope.get({key})', f'self._scope.get({key},None)', f'self._scope.get({key},_MISSING)', f'self._scope[{key}]')]
+            saved = saves[0].targets[0].id if saves else None
+            ok_save = bool(saves) and fl.cfg.dominates(saves[0], stores[0])
+            # (b) it is put back
+            restores = [s for s in ast.walk(m.node) if isinstance(s, ast.Assign) and isinstance(s.targets[0], ast.Subscript) and src(s.targets[0].value) == 'self._scope'
+                        and src(s.targets[0].slice) == key and isinstance(s.value, ast.Name) and s.value.id == saved]
+            ok_restore = bool(restores)
+            # (c) the variable is removed only when nothing was shadowed
+            pops = [c for c in ast.walk(m.node) if isinstance(c, ast.Call) and src(c.func) in ('self._scope.pop',) and c.args and src(c.args[0]) == key]
+            dels = [d for d in ast.walk(m.node) if isinstance(d, ast.Delete) and any(src(t) == f'self._scope[{key}]' for t in d.targets)]
+            ok_pop = True
+            for c in pops + dels:
+                st = fl.stmt_of(c)
+                g = fl.cfg.guard_literals(st)
+                if not any(saved and saved in t for t, tr in g):
+                    ok_pop = False
+            why = []
+            if not ok_save:
+                why.append('the binding in scope before the loop is not saved')
+            if not ok_restore:
+                why.append('the saved binding is never put back')
+            if not ok_pop:
+                why.append('the variable is removed from the scope unconditionally')
+            ctx.check(ok_save and ok_restore and ok_pop, 'C04.R11', m, f'scope:{key}', f'{m.name}: previous binding of {key} saved and restored around each item',
+                      f'{m.name}: ' + '; '.join(why) + ': an inner comprehension that reuses the name of an outer loop variable (or of a := binding) destroys the outer binding, '
+                      f'unlike the same Python construct (renaming the inner variable changes the result)', lp)
+    ctx.need(n >= 2, f'C04.R11: only {n} comprehension loops binding a scope variable found')
